@@ -53,6 +53,13 @@ def run(tier, seed):
             b = {"cls": "MinSetCover", "universe": u["universe"], "subsets": u["subsets"],
                  "sweights": u["weights"][:len(u["subsets"])], "subset_weights": u["weights"][:len(u["subsets"])]}
             insts.append(b)
+            if len(u["subsets"]) >= 2 and rng.random() < 0.5:
+                # the same element set listed twice with different prices, the cheaper copy last
+                j = rng.randrange(len(u["subsets"]))
+                wj = u["weights"][j]
+                d = {"cls": "MinSetCover", "universe": u["universe"], "subsets": u["subsets"] + [u["subsets"][j]]}
+                d["sweights"] = d["subset_weights"] = [w + (3 if i == j else 0) for i, w in enumerate(u["weights"][:len(u["subsets"])])] + [wj]
+                insts.append(d)
             if rng.random() < 0.2:
                 c = dict(b); c.pop("subset_weights"); c["sweights"] = [1] * len(u["subsets"]); insts.append(c)   # default weights = 1
     C.with_ids(insts)
